@@ -172,3 +172,33 @@ func Verif_C01_restart_alternation() {
 	verifAssert("all-closed-at-stop", e.pl.nClose == 2)
 	c01Monitors(e, conns)
 }
+
+// the shutdown racing the very moment a session becomes Established: whatever the plugin saw is still a
+// well-formed history (OnClose only after an OnEstablished, every OnEstablished closed by the return of stop)
+func Verif_C01_stop_races_the_established_grant() {
+	d := 3
+	if verifTier() >= 1 {
+		d = 4
+	}
+	verifNote("real peer with one connection (outbound or inbound, symbolic) in OpenConfirm; the remote's KEEPALIVE is delivered and peer.stop() is called without waiting: all schedules with at most 3 (quick) / 4 (thorough) delays (so the stop also lands between the manager's grant of Established and the FSM acting on it); callbacks yield; monitors: OnClose never without a preceding OnEstablished, no overlap, OnEstablished == OnClose when stop has returned, no callback afterwards")
+	dir := verifChoose("direction", 2)
+	e := newPenv(dir == in)
+	e.pl.yieldInCallbacks = true
+	e.p.start()
+	c := e.bring(dir, stOpenConfirm)
+	if c == nil {
+		return
+	}
+	verifDelayBound(d)
+	c.send(verifMsgKeepalive, nil)
+	e.p.stop()
+	ev := len(e.pl.events)
+	verifAssert("every-onestablished-closed-by-the-return-of-stop", e.pl.nEstab == e.pl.nClose && e.pl.active == 0)
+	verifAssert("onclose-only-after-onestablished", !e.pl.badOrder)
+	verifAssert("callbacks-never-overlap", !e.pl.overlap)
+	verifQuiesce()
+	verifAssert("no-callback-after-stop", len(e.pl.events) == ev)
+	verifAssert("connection-closed", c.closed)
+	verifCoverIf("established-before-stop-won", e.pl.nEstab == 1)
+	verifCoverIf("stop-won", e.pl.nEstab == 0)
+}
